@@ -115,7 +115,10 @@ TraceExpandSplit ==
 TraceProbe ==
   /\ IsEv("probe")
   /\ LET e == Trace[l] IN
-     Rec(IF e.kind = "unknown" THEN Cl(~e.accepted, "C16.unknown_key_rejected") ELSE Cl(e.accepted, "C16.defined_key_accepted"), {}, {})
+     \* both entry points (a reader, a file path) are the same strict parser
+     Rec((IF e.kind = "unknown" THEN Cl(~e.accepted /\ ~e.accepted_file, "C16.unknown_key_rejected")
+          ELSE Cl(e.accepted /\ e.accepted_file, "C16.defined_key_accepted"))
+         \cup Cl(e.file_same, "C16.file_and_reader_entry_points_agree"), {}, {})
   /\ UNCHANGED <<cid, ncases>>
 
 TraceExpand ==
